@@ -827,8 +827,22 @@ impl Archive {
             // Read raw table data
             self.reader
                 .seek(SeekFrom::Start(self.archive_offset + offset))?;
-            let mut table_data = vec![0u8; size as usize];
-            match self.reader.read_exact(&mut table_data) {
+            // `size` comes from the V4 header and is untrusted: read at most that many bytes
+            let mut table_data = Vec::new();
+            let read = (&mut self.reader)
+                .take(size)
+                .read_to_end(&mut table_data)
+                .and_then(|n| {
+                    if n as u64 == size {
+                        Ok(())
+                    } else {
+                        Err(std::io::Error::new(
+                            std::io::ErrorKind::UnexpectedEof,
+                            format!("table of {size} bytes is truncated to {n}"),
+                        ))
+                    }
+                });
+            match read {
                 Ok(_) => {
                     // Calculate MD5
                     let mut hasher = Md5::new();
@@ -1585,6 +1599,19 @@ impl Archive {
         Ok(entries)
     }
 
+    /// A table entry is untrusted input: the bytes it claims to occupy must lie inside the
+    /// archive file. Checked before any buffer is sized from the entry.
+    fn check_stored_extent(&self, file_info: &FileInfo, name: &str) -> Result<()> {
+        let archive_len = self.reader.get_ref().metadata()?.len();
+        match file_info.file_pos.checked_add(file_info.compressed_size) {
+            Some(end) if end <= archive_len => Ok(()),
+            _ => Err(Error::invalid_format(format!(
+                "File '{name}' claims {} stored bytes at offset {} but the archive holds only {archive_len} bytes",
+                file_info.compressed_size, file_info.file_pos
+            ))),
+        }
+    }
+
     /// Read a file from the archive
     pub fn read_file(&mut self, name: &str) -> Result<Vec<u8>> {
         let file_info = self
@@ -1633,6 +1660,8 @@ impl Archive {
             0
         };
 
+        self.check_stored_extent(&file_info, name)?;
+
         // Read the file data
         self.reader.seek(SeekFrom::Start(file_info.file_pos))?;
 
@@ -1667,8 +1696,9 @@ impl Archive {
                 // CRC is calculated on the decompressed data
                 let data_to_check = if file_info.is_compressed() {
                     // We need to decompress first to check CRC
-                    let compression_type = data[0];
-                    let compressed_data = &data[1..];
+                    let Some((&compression_type, compressed_data)) = data.split_first() else {
+                        return Err(Error::compression("Compressed file data is empty"));
+                    };
                     compression::decompress(
                         compressed_data,
                         compression_type,
@@ -2107,6 +2137,8 @@ impl Archive {
             key
         };
 
+        self.check_stored_extent(&file_info, &file_info.filename)?;
+
         // Read the file data
         self.reader.seek(SeekFrom::Start(file_info.file_pos))?;
 
@@ -2188,6 +2220,20 @@ impl Archive {
             file_info.file_pos
         );
 
+        // file_size (untrusted) determines the size of the offset table; the table has to lie
+        // inside the archive file before a buffer is sized from it.
+        let archive_len = self.reader.get_ref().metadata()?.len();
+        if file_info
+            .file_pos
+            .checked_add(offset_table_size as u64)
+            .is_none_or(|end| end > archive_len)
+        {
+            return Err(Error::invalid_format(format!(
+                "Sector offset table of {offset_table_size} bytes at offset {} (file size {}) does not fit in an archive of {archive_len} bytes",
+                file_info.file_pos, file_info.file_size
+            )));
+        }
+
         let mut offset_data = vec![0u8; offset_table_size];
         self.reader.read_exact(&mut offset_data).map_err(|e| {
             log::error!("Failed to read offset table: {}", e);
@@ -2264,11 +2310,14 @@ impl Archive {
         }
 
         // Read and decompress each sector
-        let mut decompressed_data = Vec::with_capacity(file_info.file_size as usize);
+        // file_size is untrusted: reserve a bounded amount, the vector grows with real data
+        let mut decompressed_data =
+            Vec::with_capacity((file_info.file_size as usize).min(16 * 1024 * 1024));
 
         // Pre-allocate a reusable buffer for sector reading
-        // Add some overhead for compression headers
-        let max_sector_size = sector_size + 1024;
+        // Add some overhead for compression headers. No stored sector can be larger than the
+        // whole stored file, whatever the header's sector size says.
+        let max_sector_size = sector_size.min(file_info.compressed_size as usize) + 1024;
         let mut sector_buffer = vec![0u8; max_sector_size];
 
         for i in 0..sector_count {
@@ -2279,6 +2328,15 @@ impl Archive {
                 // This can happen with corrupted or malformed archives
                 return Err(Error::invalid_format(format!(
                     "Invalid sector offsets for sector {i}: start={sector_start}, end={sector_end}"
+                )));
+            }
+
+            // Sector offsets are relative to the start of the stored file; the sector has to lie
+            // inside the archive file before a buffer is sized from it
+            if file_info.file_pos.saturating_add(sector_end) > archive_len {
+                return Err(Error::invalid_format(format!(
+                    "Sector {i} ends at offset {sector_end} of a file stored at {}, beyond the {archive_len} bytes of the archive",
+                    file_info.file_pos
                 )));
             }
 
